@@ -4,6 +4,6 @@
 set -euo pipefail
 cd /verif
 mkdir -p .cache evidence replays
-KMC_FORCE=1 ./build.sh
+KMC_FORCE=1 ./build.sh race
 .cache/bin/kmc list >/dev/null
 echo "setup ok"
